@@ -52,7 +52,9 @@ if a.meta:
     mp = os.path.join(d, "meta.json")
     meta = json.load(open(mp)) if os.path.exists(mp) else {}
     meta.setdefault("results", {})
-    meta["confirmed"] = {k: res.get(k) for k in ("repo_head", "demo_head", "demo_patched", "suite", "applied_with_fuzz") if k in res} or meta.get("confirmed")
+    conf = dict(meta.get("confirmed") or {})
+    conf.update({k: res.get(k) for k in ("repo_head", "demo_head", "demo_patched", "suite", "applied_with_fuzz") if k in res and (k != "repo_head" or "demo_head" in res)})
+    meta["confirmed"] = conf
     for c, r in res["checks"].items():
         meta["results"]["%s/%s" % (c, a.tier)] = r
     json.dump(meta, open(mp, "w"), indent=1)
